@@ -1,6 +1,228 @@
-# C15 — see DESIGN.md §4; shared IRC check logic in irc_common.py
+# C15 — every line sent to clients is a single well-formed IRC line.
+#   part 1 (irc_common): proofs + correspondence of the IRC model on entry histories + line monitor on every output
+#   part 2 (here): the same property at the place the property names — what a client POSTs through the real HTTP handler.
+#     The sanitising step of the handler is Api/Post.v's cut_line (theorem C15_sanitised_partial); here the real handler
+#     (single-node raft, real FSM, real api.HTTP) is fed bodies with CR/LF/NUL at every kind of position (start, inside
+#     the first 512 bytes, beyond 512 bytes behind ignored middle parameters, at the very end of a 2048-byte body), the
+#     committed entry is compared with the model's (correspondence of cut_line), and the line monitor of the property is
+#     run on the output batch stored for the entry (op Y of the driver).
+import json, os, time
+import vlib
 from props import irc_common
+from props import c11 as api
+from props import c10
+from props.c11 import hx, unhx
+
+CTL = ["\r", "\n", "\x00", "\r\n", "\n\r", "\x00\n"]
+FORGED = ":evil!e@e PRIVMSG #c :forged"
+
+
+def gen_case(rng, ci, quick):
+    ns = 3
+    chan = "#c%d" % ci
+    nick = lambda k: "p%dx%d" % (ci, k)
+    ops, cm = [], [rng.randint(1, 1 << 40)]
+    def I(k, line): return "I:%d:%s" % (k, hx(line))
+    def fresh():
+        cm[0] += rng.randint(1, 1000)
+        return cm[0]
+    for k in range(ns):
+        ops += ["C:%d" % k, I(k, "NICK " + nick(k)), I(k, "USER u%d 0 * :U %d" % (k, k)), I(k, "JOIN " + chan)]
+    steps = rng.randint(4, 8) if quick else rng.randint(8, 30)
+    for _ in range(steps):
+        k = rng.randrange(ns)
+        other = nick((k + 1) % ns)
+        ctl = rng.choice(CTL)
+        tail = ctl + FORGED
+        shape = rng.random()
+        if shape < 0.25:       # control character early
+            pos_text = "x" * rng.randint(0, 40)
+            line = rng.choice(["PRIVMSG %s :" % chan, "NOTICE %s :" % other, "TOPIC %s :" % chan, "AWAY :", "PART %s :" % chan,
+                               "PRIVMSG %s :" % other, "KICK %s %s :" % (chan, other), "QUIT :"]) + pos_text + tail
+        elif shape < 0.45:     # around the 510/512 byte marks
+            n = rng.choice([440, 470, 480, 495, 500, 505, 509, 510, 511, 512, 513, 520, 600])
+            head = "PRIVMSG %s :" % chan
+            line = head + "y" * max(0, n - len(head)) + tail
+        elif shape < 0.75:     # ignored middle parameters push the trailing parameter past 512 bytes, the reply stays short
+            n = rng.choice([200, 250, 260, 270, 300, 400, 700, 900])
+            cmd = rng.choice(["PRIVMSG %s" % chan, "NOTICE %s" % chan, "PRIVMSG %s" % other, "TOPIC %s" % chan])
+            line = cmd + " x" * n + " :hello" + tail
+        elif shape < 0.85:     # control character inside a middle parameter / the command / the target
+            line = rng.choice(["PRIV%sMSG %s :a" % (ctl, chan), "PRIVMSG %s%s :a" % (chan, ctl), "NICK new%s%d" % (ctl, ci),
+                               "JOIN #d%d%s,#e" % (ci, ctl), "MODE %s +b %sm!*@*" % (chan, ctl), "USER a%sb 0 * :r" % ctl])
+        elif shape < 0.93:     # several control characters, the first one late
+            line = "PRIVMSG %s :" % chan + "z" * rng.randint(0, 1500) + ctl + "mid" + rng.choice(CTL) + "end" + rng.choice(CTL)
+        else:                  # as long as the body limit allows
+            line = "PRIVMSG %s" % chan + " q" * 300 + " :" + "w" * rng.randint(1000, 1400) + tail
+        b = c10.body(line, fresh())
+        ops += ["P:%d:%s" % (k, hx(b)), "Y"]
+        if rng.random() < 0.2:
+            ops += ["T:%d" % k]
+    ops.append("Z")
+    return "post c%d " % ci + " ".join(ops)
+
+
+def line_faults(data):
+    """the property on one delivered line"""
+    f = []
+    if len(data) > 510:
+        f.append(("toolong", "%d bytes" % len(data)))
+    for c, nm in ((b"\n", "LF"), (b"\r", "CR"), (b"\x00", "NUL")):
+        if c in data:
+            f.append(("ctl:" + nm, "contains %s at offset %d" % (nm, data.index(c))))
+    import re
+    cmd_re = re.compile(rb"^([A-Za-z]+|[0-9]{3})\Z")
+    if not data.startswith(b":"):
+        # RFC 1459: the prefix is optional; the server omits it only on ERROR (same rule as irclib.mon_c15)
+        cmd = data.split(b" ", 1)[0]
+        if not cmd_re.match(cmd):
+            f.append(("nocommand", "line does not start with a command"))
+        elif cmd != b"ERROR":
+            f.append(("noprefix", "line without prefix delivered to a client"))
+    else:
+        w = data.split(b" ")
+        if len(w[0]) < 2:
+            f.append(("emptyprefix", "empty prefix"))
+        if len(w) < 2 or not cmd_re.match(w[1]):
+            f.append(("nocommand", "no command after the prefix"))
+    return f
+
+
+def monitor(ops, obs):
+    fails, lines_seen = [], 0
+    last_post = None
+    for tok, o in zip(ops, obs):
+        if "panic" in o:
+            fails.append(("driver-op-failed", "op %s failed: %s" % (tok[:80], o)))
+            continue
+        if o["op"] in ("P", "I"):
+            last_post = tok
+        if o["op"] == "Y" and o.get("out", "-") != "-":
+            for m in o["out"].split(";"):
+                f = m.split(":")
+                data = unhx(f[1])
+                lines_seen += 1
+                for sig, text in line_faults(data):
+                    fails.append(("c15:api:" + sig, "output %s of the entry committed for POST body %r: %s; line = %r" % (
+                        f[0], (unhx(last_post.split(":")[2])[:120] if last_post else b""), text, data[:200])))
+        if o["op"] in ("P", "I", "T") and o.get("grew") == "1":
+            ent = o["ent"].split(".")
+            if len(ent) > 5:
+                data = unhx(ent[5])
+                if any(c in data for c in (b"\r", b"\n", b"\x00")):
+                    fails.append(("c15:api:entry-not-sanitised", "the entry committed for %s carries CR/LF/NUL: %r" % (tok[:60], data[:120])))
+    return fails, lines_seen
+
+
+def shrink(case_line, wiring, sig, prefix):
+    f = case_line.split(" ")
+    head, ops = f[:2], f[2:]
+    def fails(cand):
+        res, _ = api.run_go([" ".join(head + prefix.split(" ") + cand)], wiring, "c15shrink", timeout=600)
+        if not res:
+            return False
+        fl, _ = monitor(prefix.split(" ") + cand, res[0][2:])
+        return any(s == sig for s, _ in fl)
+    i = len(ops) - 1
+    budget = 40
+    while i >= 0 and budget > 0:
+        if ops[i].startswith(("P:", "I:", "Y", "T:", "Z")) and not ops[i].startswith(("I:0:", "I:1:", "I:2:")) or ops[i] == "Z":
+            cand = ops[:i] + ops[i + 1:]
+            budget -= 1
+            if fails(cand):
+                ops = cand
+        i -= 1
+    return ops
+
+
+def run_api_part(ck, replay):
+    quick = ck.tier == "quick"
+    facts, _, slog = api.scan_routes()
+    wiring = api.wiring_of(facts)
+    prefix = "N F:%s:%s:ok" % (hx("0"), hx(api.BASE_CFG))
+    if replay:
+        rp = json.load(open(replay))
+        lines = [l for l in rp.get("cases", []) if l.startswith("post ")]
+        if not lines:
+            return
+    else:
+        lines = []
+        corpus = os.path.join(vlib.ROOT, "corpus", "C15api")
+        if os.path.isdir(corpus):
+            for fn in sorted(os.listdir(corpus)):
+                if fn.endswith(".case"):
+                    lines += [l for l in open(os.path.join(corpus, fn)).read().split("\n") if l and not l.startswith("#")]
+        lines += [gen_case(ck.rng, i, quick) for i in range(30 if quick else 400)]
+    f = lines[0].split(" ")
+    if "N" not in f[2:4]:
+        lines[0] = " ".join(f[:2] + prefix.split(" ") + f[2:])
+    t0 = time.time()
+    res, goout = api.run_go(lines, wiring, "c15api", timeout=3000)
+    ck.notes["api_go_wall_s"] = round(time.time() - t0, 1)
+    if res is None:
+        ck.violation("tie-broken:go-driver-api", {"what": "Go API driver did not build/run against the current tree", "output": goout[-4000:],
+                                                  "obligation": "correspondence apidrv (package main) for C15", "cases": lines[:1]}, concrete=False)
+        return
+    mins, wants, monfail, nlines, posts = [], [], [], 0, 0
+    for ci, case in enumerate(res):
+        ops = lines[ci].split(" ")[2:]
+        obs = case[2:]
+        fl, n = monitor(ops, obs)
+        nlines += n
+        posts += sum(1 for o in obs if o["op"] == "P")
+        monfail += [(ci, s, t) for s, t in fl]
+        mi, w = c10.model_case(obs)
+        mins.append(mi); wants.append(w)
+    mism = []
+    if getattr(ck, "model_ok", False):
+        mout = vlib.run_model("\n".join(mins) + "\n")
+        mism = [i for i in range(len(mins)) if i >= len(mout) or mout[i] != wants[i]]
+    else:
+        mout = []
+    ck.cov["api_histories"] = len(lines)
+    ck.cov["api_posts_with_control_characters"] = posts
+    ck.cov["api_output_lines_monitored"] = nlines
+    ck.cov["evaluations"] = ck.cov.get("evaluations", 0) + len(lines)
+    ck.cov["distinct_nontrivial"] = ck.cov.get("distinct_nontrivial", 0) + len(set(lines))
+    ck.cov["rule"] = ck.cov.get("rule", "") + (" | API part: histories of 3 registered sessions in one channel on a single-node raft + real api.HTTP; each POSTs bodies whose Data "
+                                              "holds CR/LF/NUL (single and pairs) early, around bytes 440-600, beyond byte 512 behind 200-900 ignored middle parameters, inside "
+                                              "command/target/middle parameters, and in bodies close to the 2048-byte limit; after each POST the output batch of the newest entry is "
+                                              "monitored (<=510 bytes, no CR/LF/NUL, prefix + command) and the committed entry is compared with Api/Post.v (cut_line)")
+    seen = set()
+    for ci, sig, text in monfail:
+        if sig in seen:
+            continue
+        seen.add(sig)
+        ops = lines[ci].split(" ")[2:]
+        if not replay:
+            ops = [o for o in ops if o != "N" and not o.startswith("F:")]
+            try:
+                ops = shrink("post s " + " ".join(ops), wiring, sig, prefix)
+            except Exception:
+                pass
+            ops = prefix.split(" ") + ops
+        ck.violation(sig, {"what": text, "cases": ["post replay " + " ".join(ops)],
+                           "expected": "every delivered line is at most 510 bytes, has no CR/LF/NUL, starts with a prefix and a command",
+                           "how_to_replay": "bin/check C15 --replay <this file>"}, concrete=True)
+    if mism and not monfail:
+        i = mism[0]
+        ck.violation("correspondence:post", {"what": "model (Api/Post.v, cut_line) and the POST handler disagree on the committed entry; the line monitor found no malformed output",
+                                             "obligation": "correspondence apidrv (Api/Post.v vs postmessage.go)", "model_input": mins[i][:3000],
+                                             "model_output": mout[i] if i < len(mout) else None, "impl_output": wants[i][:3000], "mismatches": len(mism),
+                                             "cases": [lines[i] if " N " in lines[i] else "post replay " + prefix + " " + lines[i].split(" ", 2)[2]]}, concrete=False)
 
 
 def run(ck, replay):
-    irc_common.run_irc_check(ck, "C15", "c15", replay)
+    irc_only = False
+    if replay:
+        try:
+            rp = json.load(open(replay))
+            irc_only = not any(l.startswith("post ") for l in rp.get("cases", []))
+        except Exception:
+            pass
+    if not replay or irc_only:
+        irc_common.run_irc_check(ck, "C15", "c15", replay)
+    else:
+        ck.proof_obligations()
+    if not irc_only:
+        run_api_part(ck, replay)
